@@ -23,6 +23,7 @@ import shutil
 import subprocess
 import sys
 import tempfile
+import threading
 import time
 
 VERIF = os.path.dirname(os.path.dirname(os.path.abspath(__file__)))
@@ -165,6 +166,7 @@ class Ctx:
         self.level = "model_checking"
         self._binaries = {}
         self._meta = 0
+        self._meta_lock = threading.Lock()
         self._spec_ready = False
         self.quick = tier == "quick"
         self.thorough = tier == "thorough"
@@ -221,11 +223,13 @@ class Ctx:
         left = re.findall(r"\$\{(\w+)\}", text)
         if left:
             raise Machinery("cfg %s: unsubstituted placeholders %s" % (cfg, left))
-        self._meta += 1
-        cfgname = "run%d_%s" % (self._meta, cfg)
+        with self._meta_lock:   # drivers may run several TLC jobs from threads
+            self._meta += 1
+            runno = self._meta
+        cfgname = "run%d_%s" % (runno, cfg)
         with open(os.path.join(self.specdir, cfgname), "w") as f:
             f.write(text)
-        meta = self.path("meta%d" % self._meta)
+        meta = self.path("meta%d" % runno)
         w = workers or self.workers
         cmd = ["timeout", str(timeout), "tlc", "-workers", str(w), "-metadir", meta,
                "-config", cfgname, "-noGenerateSpecTE"]
